@@ -42,6 +42,16 @@ fn main() {
             });
             sweep::emit_case(&mut out, "replay", &c, true).expect("write");
         }
+        "neighbors" => {
+            let seed: u64 = args.get(2).and_then(|s| s.parse().ok()).unwrap_or(1);
+            let count: usize = args.get(3).and_then(|s| s.parse().ok()).unwrap_or(200);
+            let line = args[4..].join(" ");
+            let c = case::Case::dec(&line).unwrap_or_else(|| {
+                eprintln!("HARNESS-ERROR cannot parse case: {}", line);
+                std::process::exit(3)
+            });
+            sweep::neighbors(&mut out, &c, seed, count).expect("write");
+        }
         "sources" => {
             let seed: u64 = args.get(2).and_then(|s| s.parse().ok()).unwrap_or(1);
             let only = args.get(3).cloned().unwrap_or_default();
